@@ -16,7 +16,7 @@ RULE = ("one seeded world (1-4 looms, 1-3 processes, 1-4 threads, ranks or not, 
         "only in which thread carries app_id, rank/nranks and each (possibly overlapping or repeated) slice of loom_cpus, and in directory "
         "creation order; outputs must be byte-identical across variants and rows must follow the documented order; 35% of the worlds add "
         "one contradiction (different app id / rank / nranks inside a process, one CPU index with two physical ids and vice versa, duplicate "
-        "TID, loom without CPUs, process without app id) which must end in exit status 1 with a diagnostic; distinct = hash of (world, "
+        "TID, loom without CPUs or with a missing CPU index, process without app id) which must end in exit status 1 with a diagnostic; distinct = hash of (world, "
         "distributions); non-trivial = >= 2 threads in some process or loom so that a carrier choice exists")
 REAL = ["ovniemu (src/emu/**: system.c, loom.c, proc.c, thread.c, cpu.c) built from /repo's working tree"]
 STUB = ["libovni replaced by the independent trace writer sim/tracefmt.py"]
@@ -32,7 +32,7 @@ def gen(rng, tier, idx):
     fault = None
     rf = rng.derive("faults")
     if rf.chance(35):
-        fault = rf.choice(["appid", "rank", "nranks", "index2phy", "phy2index", "duptid", "nocpus", "noappid"])
+        fault = rf.choice(["appid", "rank", "nranks", "index2phy", "phy2index", "duptid", "nocpus", "noappid", "cpuhole"])
     return {"world": desc, "vseeds": [rv.u64() for _ in range(nvar)], "fault": fault, "fseed": rf.u64()}
 
 
@@ -121,6 +121,23 @@ def apply_fault(w, metas, fault, rng):
             for t in p.threads:
                 metas[id(t)]["ovni"].pop("loom_cpus", None)
         return "loom %s without cpus" % l.name, []
+    if fault == "cpuhole":
+        # one CPU of the loom is in nobody's list although a higher index is: a CPU is missing
+        cands = [l for l in w.looms if len(l.cpus) >= 2]
+        if not cands:
+            return None
+        l = rng.choice(cands)
+        victim = rng.choice([c for c in l.cpus if c.index != max(x.index for x in l.cpus)])
+        for p in l.procs:
+            for t in p.threads:
+                lst = metas[id(t)]["ovni"].get("loom_cpus")
+                if lst:
+                    lst = [e for e in lst if e["index"] != victim.index]
+                    if lst:
+                        metas[id(t)]["ovni"]["loom_cpus"] = lst
+                    else:
+                        metas[id(t)]["ovni"].pop("loom_cpus")
+        return "loom %s: cpu index %d missing from every list although higher indices are present" % (l.name, victim.index), []
     if fault == "noappid":
         p = rng.choice(w.procs)
         for t in p.threads:
